@@ -266,6 +266,16 @@ func (r *Recorder) addViolation(check string, caseJSON []byte, v *Violation, kno
 		return ""
 	}
 	r.Violations = append(r.Violations, violationRec{Sig: v.Sig, Detail: v.Detail, Replay: path})
+	// journal: a shard that is killed later (time-out while shrinking a slow case) has still SEEN this violation
+	if f, err := os.OpenFile(filepath.Join(workDir(), fmt.Sprintf("violations.%d.jsonl", Shard())), os.O_APPEND|os.O_CREATE|os.O_WRONLY, 0o644); err == nil {
+		d := v.Detail
+		if len(d) > 2000 {
+			d = d[:2000]
+		}
+		b, _ := json.Marshal(violationRec{Sig: v.Sig, Detail: d, Replay: path})
+		f.Write(append(b, '\n'))
+		f.Close()
+	}
 	return path
 }
 
